@@ -275,6 +275,63 @@ func runC02(e *Engine, r *Report, tier string) {
 				hasPow = true
 			}
 		})
+		if !(okT && hasPow) {
+			// the other spelling: the sum is taken inside the callback of a walk over the oracle records (0x12); the callback
+			// must never ask the walk to stop and must add GetPower exactly for the online records (round-7 seed C02 returned
+			// `true` = stop for an offline record)
+			allInstrs(w, func(i ssa.Instruction) {
+				mc, ok := i.(*ssa.MakeClosure)
+				if !ok {
+					return
+				}
+				cl, _ := mc.Fn.(*ssa.Function)
+				if cl == nil {
+					return
+				}
+				walks := false
+				for _, ref := range *mc.Referrers() {
+					if c, ok := ref.(ssa.CallInstruction); ok {
+						for _, f := range e.calleesOf(c) {
+							if isFx(f) && e.HasTransEffect(f, cc, "12", "iter") {
+								walks = true
+							}
+						}
+					}
+				}
+				if !walks {
+					return
+				}
+				neverStops := true
+				for _, b := range cl.Blocks {
+					if ret, ok := b.Instrs[len(b.Instrs)-1].(*ssa.Return); ok {
+						if len(ret.Results) != 1 {
+							neverStops = false
+							continue
+						}
+						if bv, ok := constBool(ret.Results[0]); !ok || bv {
+							neverStops = false
+						}
+					}
+				}
+				addsOnline := false
+				allCalls(cl, func(c ssa.CallInstruction) {
+					if callName(c) != "GetPower" {
+						return
+					}
+					for _, g := range GuardsOf(c) {
+						ci, ok := NormCond(g)
+						if ok && ci.Op == "true" {
+							if n, _, ok := fieldNameOfLoad(ci.X); ok && n == "Online" {
+								addsOnline = true
+							}
+						}
+					}
+				})
+				if neverStops && addsOnline {
+					okT, hasPow = true, true
+				}
+			})
+		}
 		r.Check(okT && hasPow, "R1", e.FnKey(w)+" total", e.Pos(w.Pos()), "recorded total = Σ GetPower over online oracles", "recorded total power is no longer the sum of GetPower over the online oracles")
 	}
 
